@@ -25,6 +25,7 @@ import (
 	"strings"
 	"sync/atomic"
 	"time"
+	"unicode/utf8"
 
 	"github.com/hydraide/hydraide/app/core/hydra"
 	"github.com/hydraide/hydraide/app/core/safeops"
@@ -244,9 +245,9 @@ func fieldMutations(fd protoreflect.FieldDescriptor, tier string) []mutation {
 				}
 			})
 		case protoreflect.StringKind:
-			for _, s := range []string{"", "nokey", strings.Repeat("K", 65535), strings.Repeat("K", 65536), strings.Repeat("K", 70000)} {
+			for _, s := range keyVariants() {
 				s := s
-				add(fmt.Sprintf("[%.8q..%d]", s, len(s)), func(m protoreflect.Message) {
+				add(fmt.Sprintf("[%.8q..%db/%dr]", s, len(s), utf8.RuneCountInString(s)), func(m protoreflect.Message) {
 					l := m.Mutable(fd).List()
 					l.Truncate(0)
 					l.Append(protoreflect.ValueOfString(s))
@@ -267,11 +268,11 @@ func fieldMutations(fd protoreflect.FieldDescriptor, tier string) []mutation {
 		if name == "SwampName" || name == "SwampPattern" {
 			vals = []string{"", "ab", "a/b", "a//", "//", "*", "*/*/*", "c26p/r/missing", "c26m/r/missing", "a/b/c/d", strings.Repeat("n", 300) + "/r/s"}
 		} else if name == "Key" {
-			vals = []string{"", "nokey", strings.Repeat("K", 65535), strings.Repeat("K", 65536), strings.Repeat("K", 70000)}
+			vals = keyVariants()
 		}
 		for _, s := range vals {
 			s := s
-			add(fmt.Sprintf("%.12q..%d", s, len(s)), func(m protoreflect.Message) { m.Set(fd, protoreflect.ValueOfString(s)) })
+			add(fmt.Sprintf("%.12q..%db/%dr", s, len(s), utf8.RuneCountInString(s)), func(m protoreflect.Message) { m.Set(fd, protoreflect.ValueOfString(s)) })
 		}
 	case protoreflect.BoolKind:
 		add("true", func(m protoreflect.Message) { m.Set(fd, protoreflect.ValueOfBool(true)) })
@@ -328,6 +329,21 @@ func safeText(m proto.Message) (txt string) {
 		}
 	}()
 	return fmt.Sprint(m)
+}
+
+// keyVariants: treasure keys around the limit of the storage format, which is 65535 BYTES (16-bit key
+// length of the V2 file): ASCII keys, and keys of 2-, 3- and 4-byte UTF-8 characters whose byte
+// length and character count fall on different sides of the limit.
+func keyVariants() []string {
+	return []string{"", "nokey",
+		strings.Repeat("K", 65535), strings.Repeat("K", 65536), strings.Repeat("K", 70000),
+		strings.Repeat("é", 32767) + "a", // 65535 bytes, 32768 characters: the longest valid key
+		strings.Repeat("é", 32768),       // 65536 bytes, 32768 characters
+		strings.Repeat("é", 40000),       // 80000 bytes, 40000 characters
+		strings.Repeat("€", 21846),       // 65538 bytes, 21846 characters
+		strings.Repeat("😀", 16384),       // 65536 bytes, 16384 characters
+		"ключ/鍵/🔑",                        // short multi-byte key
+	}
 }
 
 type variant struct {
@@ -834,18 +850,44 @@ func child(resultPath, root, tier string, only int) {
 			}
 		}
 	}
-	// oversized key on a persistent swamp (owned by the storage writer, C01)
+	// key-limit probes on persistent swamps, through Set (its keys sit three levels deep, below the
+	// reach of the field mutations) and through IncrementInt64: a key longer than 65535 bytes must be
+	// rejected; an acknowledged key - whatever it is made of - must be there after the restart
+	type probeT struct {
+		swamp string
+		keys  []string
+	}
+	var probes []probeT
 	if !hungStop && only < 0 {
 		one := int64(1)
-		big := "c26p/r/big"
-		_, err := s.GW.Set(context.Background(), &hydrapb.SetRequest{Swamps: []*hydrapb.SwampRequest{{IslandID: 1, SwampName: big, CreateIfNotExist: true, Overwrite: true,
-			KeyValues: []*hydrapb.KeyValuePair{{Key: "small", Int64Val: &one}, {Key: strings.Repeat("K", 70000), Int64Val: &one}}}}})
-		if err == nil {
-			// acknowledged: then it has to survive the restart (reload check below)
-			touched[big] = "Set with a 70000-byte key"
-			emit(record{Idx: -3, Method: "OversizedKey", Variant: big, Phase: "done", Note: "a Set with a 70000-byte key was acknowledged"})
-		} else {
-			emit(record{Idx: -3, Method: "OversizedKey", Variant: big, Phase: "done", Code: int(status.Code(err))})
+		for pi, k := range keyVariants() {
+			if k == "" || k == "nokey" {
+				continue
+			}
+			label := fmt.Sprintf("%.6q..%db/%dr", k, len(k), utf8.RuneCountInString(k))
+			swSet := fmt.Sprintf("c26p/r/probe%dset", pi)
+			_, err := s.GW.Set(context.Background(), &hydrapb.SetRequest{Swamps: []*hydrapb.SwampRequest{{IslandID: 1, SwampName: swSet, CreateIfNotExist: true, Overwrite: true,
+				KeyValues: []*hydrapb.KeyValuePair{{Key: "small", Int64Val: &one}, {Key: k, Int64Val: &one}}}}})
+			rec := record{Idx: -3, Method: "KeyProbe", Variant: "Set " + label, Req: swSet, Phase: "done", Safeops: len(k)}
+			if err == nil {
+				touched[swSet] = "Set with the key " + label
+				probes = append(probes, probeT{swSet, []string{"small", k}})
+			} else {
+				rec.Code = int(status.Code(err))
+			}
+			emit(rec)
+			swInc := fmt.Sprintf("c26p/r/probe%dinc", pi)
+			_, _ = s.GW.Set(context.Background(), &hydrapb.SetRequest{Swamps: []*hydrapb.SwampRequest{{IslandID: 1, SwampName: swInc, CreateIfNotExist: true, Overwrite: true,
+				KeyValues: []*hydrapb.KeyValuePair{{Key: "small", Int64Val: &one}}}}})
+			_, err = s.GW.IncrementInt64(context.Background(), &hydrapb.IncrementInt64Request{IslandID: 1, SwampName: swInc, Key: k, IncrementBy: 1})
+			rec = record{Idx: -3, Method: "KeyProbe", Variant: "IncrementInt64 " + label, Req: swInc, Phase: "done", Safeops: len(k)}
+			if err == nil {
+				touched[swInc] = "IncrementInt64 with the key " + label
+				probes = append(probes, probeT{swInc, []string{"small", k}})
+			} else {
+				rec.Code = int(status.Code(err))
+			}
+			emit(rec)
 		}
 	}
 	// counts before shutdown
@@ -904,6 +946,30 @@ func child(resultPath, root, tier string, only int) {
 			}
 			rec.Panics = int(atomic.LoadInt64(&panics) - before)
 			emit(rec)
+		}
+		for _, p := range probes {
+			for _, k := range p.keys {
+				rec := record{Idx: -4, Method: "KeyPresent", Variant: p.swamp, Req: fmt.Sprintf("%.6q..%db/%dr", k, len(k), utf8.RuneCountInString(k)), Phase: "done"}
+				ch := make(chan string, 1)
+				go func() {
+					r, err := s2.GW.IsKeyExist(context.Background(), &hydrapb.IsKeyExistRequest{IslandID: 1, SwampName: p.swamp, Key: k})
+					switch {
+					case err != nil:
+						ch <- "error: " + err.Error()
+					case r == nil || !r.IsExist:
+						ch <- "the acknowledged key is not in the swamp after the restart"
+					default:
+						ch <- ""
+					}
+				}()
+				select {
+				case msg := <-ch:
+					rec.Note = msg
+				case <-time.After(10 * time.Second):
+					rec.Hang = true
+				}
+				emit(rec)
+			}
 		}
 		stopped2 := make(chan struct{})
 		go func() { s2.Stop(); close(stopped2) }()
@@ -1047,19 +1113,27 @@ func main() {
 				run.Violate(idx, "never leaves the server unable to shut down", "graceful_stop_does_not_complete", "GracefulStop did not complete within 60 s after the generated requests")
 			}
 		}
-		if r.Method == "OversizedKey" {
-			run.Hist("oversized-key-probe")
-			if r.Note != "" || r.Code != 3 {
-				idx := run.Add("(VC None (SH NOk false KOk false false false false false false) false 0%Z 0%Z false 0%Z 0%Z false false false)", map[string]interface{}{"swamp": r.Variant, "code": r.Code, "note": r.Note}, true)
-				run.Violate(idx, "oversized keys are rejected", "oversized_key_acknowledged", fmt.Sprintf("Set with a 70000-byte key on %s: code %d %s (expected InvalidArgument)", r.Variant, r.Code, r.Note))
+		if r.Method == "KeyProbe" {
+			run.Hist("key-limit-probe")
+			keyBytes := r.Safeops // the byte length of the probed key travels in this field
+			if keyBytes > maxKey && r.Code != 3 {
+				idx := run.Add("(VC None (SH NOk false KOk false false false false false false) false 0%Z 0%Z false 0%Z 0%Z false false false)", map[string]interface{}{"probe": r.Variant, "swamp": r.Req, "code": r.Code}, true)
+				run.Violate(idx, "oversized keys are rejected", "oversized_key_acknowledged", fmt.Sprintf("%s on %s: code %d (expected InvalidArgument: the key is longer than %d bytes)", r.Variant, r.Req, r.Code, maxKey))
+			}
+		}
+		if r.Method == "KeyPresent" {
+			run.Hist("acknowledged-key-checked")
+			if r.Note != "" || r.Hang {
+				idx := run.Add("(VC None (SH NOk false KOk false false false false false false) false 0%Z 0%Z false 0%Z 0%Z false false false)", map[string]interface{}{"swamp": r.Variant, "key": r.Req, "result": r.Note, "hang": r.Hang}, true)
+				run.Violate(idx, "never corrupts stored data", "acknowledged_key_missing_after_reload", fmt.Sprintf("swamp %s key %s: %s (hang=%v)", r.Variant, r.Req, r.Note, r.Hang))
 			}
 		}
 		if r.Method == "Reload" {
 			run.Hist("reload-checked")
 			if r.Note != "" || r.Hang || r.Panics > 0 {
 				sig := "touched_swamp_does_not_reload"
-				if strings.HasSuffix(r.Variant, "/big") {
-					sig = "oversized_key_stored_swamp_unloadable"
+				if strings.Contains(r.Variant, "/probe") {
+					sig = "swamp_with_probed_key_does_not_reload"
 				} else if strings.Contains(r.Req, "nil-element") {
 					sig = "swamp_contents_lost_after_recovered_panic_on_nil_element"
 				} else if strings.Contains(r.Note, "Swamp does not exist") {
